@@ -107,6 +107,8 @@ def events_for(profile, full_values=False):
     if ieco:
         ev += [("set", "ieco", True), ("set", "ieco", False)]
     ev += [("beep", True), ("beep", False), ("apply",), ("apply-silent",), ("refresh",), ("clean",)]
+    # the unit itself starts / finishes a cleaning cycle (remote control, or the cycle simply ends)
+    ev += [("unit-clean", True), ("unit-clean", False)]
     if angles or r != "none" or b != "none" or ieco:
         ev.append(("refresh-push",))
         ev.append(("refresh-extra",))
@@ -294,6 +296,8 @@ class Run:
                 self.push = False
                 self._check_readback(kind)
 
+            elif kind == "unit-clean":
+                self.model.props[rd.P_SELF_CLEAN] = b"\x01" if ev[1] else b"\x00"
             elif kind == "clean":
                 await ac.start_self_clean()
                 writes = self.b0_writes(mark)
@@ -326,6 +330,7 @@ class Run:
             exp["breeze_away"] = store.get(rd.P_BREEZE_AWAY, b"\x00")[0] == 2
             exp["breezeless"] = bool(store.get(rd.P_BREEZELESS, b"\x00")[0])
             exp["breeze_mild"] = False
+        exp["self_clean_active"] = bool(store.get(rd.P_SELF_CLEAN, b"\x00")[0])
         for k, v in exp.items():
             got = getattr(ac, k)
             got = int(got) if not isinstance(got, bool) else got
